@@ -60,8 +60,11 @@ def _dtype_tag(dt, fill=None):
             return "int"
         if "float" in s:
             return None
-        # a data-dependent dtype (e.g. X.dtype): kept symbolically, the value may be truncated
-        return ("dtype", t)
+        # a dtype taken from caller data (e.g. X.dtype) is kept symbolically: the value may be
+        # truncated; the dtype of one of the estimator's own float buffers is the default
+        if any(isinstance(o_, tuple) and o_ and o_[0] in ("in", "optin") for o_ in (dt.orig or ())):
+            return ("dtype", t)
+        return None
     if fill is not None and fill.has_const:
         if isinstance(fill.const, bool):
             return "bool"
@@ -1256,7 +1259,7 @@ def attribute(interp, base, name, st, node):
         if name == "real":
             return x
         if name == "dtype":
-            return V("unk", T("dtype", x.term))
+            return V("unk", T("dtype", x.term), orig=x.orig)
         if name in ARRAY_METHODS:
             return V("func", T("method", x.term, name), func=("bound", _array_method(x, name), name))
     if base.kind in ("list",):
